@@ -100,7 +100,11 @@ func (r *rw) special(n ast.Node) (string, bool) {
 			if x.Tok == token.ASSIGN {
 				return "for { var vsyncOk bool; " + key + ", vsyncOk = " + r.render(x.X) + ".Recv2(); if !vsyncOk { break }; " + r.render(x.Body) + " }", true
 			}
-			return "for { " + key + ", vsyncOk := " + r.render(x.X) + ".Recv2(); if !vsyncOk { break }; _ = " + key + "; " + r.render(x.Body) + " }", true
+			use := "_ = " + key + "; "
+			if key == "_" {
+				use = ""
+			}
+			return "for { " + key + ", vsyncOk := " + r.render(x.X) + ".Recv2(); if !vsyncOk { break }; " + use + r.render(x.Body) + " }", true
 		}
 	case *ast.GoStmt:
 		r.used = true
